@@ -218,12 +218,22 @@ def rule_args(ctx):
     ctx.ob("FileSet.worker_tuple", want == unpacked, "packed %s; unpacked %s" % (packed, unpacked), "same fields in the same order", node=un[0], func=u)
     ctx.ob("FileSet.worker_tuple.source", norm(gen[0].generators[0].iter) == "files" and not gen[0].generators[0].ifs, "one tuple per element of: %s" % norm(gen[0].generators[0].iter),
            "one worker tuple per selected file (no filtering)", node=gen[0], func=p)
-    sel = [st for st in walk_no_nested(p.node) if isinstance(st, ast.If) and len(st.body) == 1 and isinstance(st.body[0], ast.Assign)
-           and norm(st.body[0].targets[0]) == "files"]
-    ok = len(sel) == 1 and norm(sel[0].test) == "files is None" and norm(sel[0].body[0].value) == "self.find(**find_args)"
-    ctx.ob("FileSet.selection", ok, "%s" % (norm(sel[0])[:80] if sel else None),
-           "`if files is None: files = self.find(**find_args)` - an explicitly given EMPTY selection selects nothing (identity test, not truthiness)",
-           node=sel[0] if sel else p.node, func=p)
+    pflow = Flow(p)
+    it_ = gen[0].generators[0].iter
+    none_asm = {"files is None": True, "files is not None": False}
+    given_asm = {"files is None": False, "files is not None": True}
+    v_none = str(norm(pflow.resolve_under(it_, none_asm, at=gen[0], depth=2, stop=("find_args",)))).replace(" ", "")
+    v_given = pflow.resolve_under(it_, given_asm, at=gen[0], depth=2, stop=("find_args",))
+    # what the workers iterate over when files are given: the given iterable itself or an element-wise conversion of it
+    src_given = v_given
+    if isinstance(src_given, ast.GeneratorExp) and len(src_given.generators) == 1 and not src_given.generators[0].ifs:
+        src_given = src_given.generators[0].iter
+    elif isinstance(src_given, ast.Call) and dotted(src_given.func) == "map" and len(src_given.args) == 2:
+        src_given = src_given.args[1]
+    ok = v_none == "self.find(**find_args)" and str(norm(src_given)) == "files"
+    ctx.ob("FileSet.selection", ok, "files is None -> %s; files given -> %s" % (v_none[:60], str(norm(v_given))[:70]),
+           "`files is None` (identity test, not truthiness: an explicitly given EMPTY selection selects nothing) selects self.find(**find_args), given files are used as they are",
+           node=gen[0], func=p)
 
 
 def rule_filenames(ctx):
@@ -245,6 +255,8 @@ def rule_filenames(ctx):
                 conv.append(d_.split(".")[-1])
             if d_.split(".")[-1] == "get_info":
                 conv.append("get_info")
+            if d_ == "map" and c_.args and (dotted(c_.args[0]) or "").startswith("self."):
+                conv.append(dotted(c_.args[0]).split(".")[-1])        # map(self._convert, files)
         for n_ in ast.walk(st):
             if isinstance(n_, ast.FunctionDef):
                 conv.append(n_.name)
@@ -296,7 +308,23 @@ def rule_errwrap(ctx):
         ok = False
         fact = "one arm of the error_to_warning branch is empty"
     else:
-        ok = isinstance(warn_arm[-1], ast.Return) and norm(warn_arm[-1].value) == "_return(file_info, None)" \
+        # the warned result: the local _return helper applied to "no result" for THIS file
+        def none_for_this_file(v_):
+            if not (isinstance(v_, ast.Call) and isinstance(v_.func, ast.Name)):
+                return False
+            helper = [n_ for n_ in f.node.body if isinstance(n_, ast.FunctionDef) and n_.name == v_.func.id]
+            if len(helper) != 1 or v_.keywords:
+                return str(norm(v_)) == "_return(file_info, None)"
+            ps = [a_.arg for a_ in helper[0].args.args]
+            if len(v_.args) != len(ps):
+                return False
+            bound = dict(zip(ps, v_.args))
+            vals = [str(norm(x_)) for x_ in bound.values()]
+            # every parameter but the result is handed the enclosing variable of the same name; the result is None
+            res = [p_ for p_ in ps if str(norm(bound[p_])) == "None"]
+            same = [p_ for p_ in ps if str(norm(bound[p_])) == p_]
+            return len(res) == 1 and len(res) + len(same) == len(ps) and "file_info" in (same + [n_.id for n_ in ast.walk(helper[0]) if isinstance(n_, ast.Name)])
+        ok = isinstance(warn_arm[-1], ast.Return) and none_for_this_file(warn_arm[-1].value) \
             and any(calls_in(s_, "warn") for s_ in warn_arm) and isinstance(raise_arm[-1], ast.Raise) and len(raise_arm) == 1 \
             and not any(calls_in(s_, "warn") for s_ in raise_arm)
         fact = "error_to_warning: warn; %s / otherwise: %s" % (norm(warn_arm[-1]), norm(raise_arm[-1]))
@@ -316,7 +344,7 @@ def rule_collect(ctx):
     its = [ic for ic in iteration_constructs(f.node) if (rname is not None and norm(ic["iter"]) == rname) or ic["iter"] is mp[0]]
     # the filter is the construct with a condition; plain projections of the filtered list (`[info for info, _ in kept]`) come after it
     filt = [ic for ic in its if ic["ifs"]]
-    if len(filt) != 1 or len(filt[0]["elts"]) != 1:
+    if len(filt) != 1 or len(filt[0]["elts"]) not in (1, 2):
         raise AnalysisError("collect: the filter over the results of map() was not found (%d candidates)" % len(its))
     ic = filt[0]
     proj = [x for x in its if x is not ic]
@@ -330,6 +358,9 @@ def rule_collect(ctx):
     info, content = [norm(e) for e in ic["target"].elts]
     ifs = [str(norm(i)) for i in ic["ifs"]]
     elt = ic["elts"][0]
+    if len(ic["elts"]) == 2:
+        # two accumulators filled under the one filter in the same iteration: info and content stay aligned
+        elt = ast.Tuple(elts=sorted(ic["elts"], key=lambda e_: str(norm(e_)) != info), ctx=ast.Load())
     ok = ifs in (["%s is not None" % content], ["not %s is None" % content], ["not (%s is None)" % content]) \
         and isinstance(elt, (ast.List, ast.Tuple)) and [norm(e) for e in elt.elts] == [info, content]
     fact = "for %s in %s if %s -> %s" % (norm(ic["target"]), norm(ic["iter"]), ifs, norm(elt))
@@ -480,14 +511,25 @@ def rule_align(ctx):
     ctx.ob("FileSet.align.name_check", bool(cmpi), "%s" % ([norm(c.test) for c in cmpi] or "no comparison of expected and loaded name"),
            "the loaded file is compared with the expected one (AlignError otherwise)", node=cmpi[0] if cmpi else ip, func=f)
     # 4. decrement once per iteration, before eviction and before any continue
-    dec = [st for st in ip.body if isinstance(st, ast.AugAssign) and isinstance(st.op, ast.Sub) and norm(st.target) == "secondary_usage[%s]" % sv and norm(st.value) == "1"]
+    USE = "secondary_usage[%s]" % sv
+    dec = [st for st in ip.body if isinstance(st, ast.AugAssign) and isinstance(st.op, ast.Sub) and norm(st.target) == USE and norm(st.value) == "1"]
+    # spelled as a plain store: secondary_usage[f] = <secondary_usage[f] - 1> (possibly through a temporary)
+    left_name = None
+    for st in ip.body:
+        if isinstance(st, ast.Assign) and len(st.targets) == 1 and norm(st.targets[0]) == USE:
+            v_ = flow.resolve(st.value, at=st, depth=2, stop=(sv, "secondary_usage"))
+            if str(norm(v_)).replace(" ", "") == "%s-1" % USE:
+                dec.append(st)
+                if isinstance(st.value, ast.Name):
+                    left_name = st.value.id
     ok4 = False
     if not dec:
         raise AnalysisError("align: the decrement `secondary_usage[f] -= 1` was not found in the secondary loop")
     if len(dec) == 1:
         k = ip.body.index(dec[0])
         before = [n for s in ip.body[:k] for n in walk_no_nested(s) if isinstance(n, (ast.Continue, ast.Break))]
-        ev = [st for st in ip.body[k + 1:] if isinstance(st, ast.If) and norm(st.test) in ("not secondary_usage[%s]" % sv, "secondary_usage[%s] == 0" % sv, "secondary_usage[%s] <= 0" % sv)
+        zero_tests = ["not %s" % USE, "%s == 0" % USE, "%s <= 0" % USE] + (["not %s" % left_name, "%s == 0" % left_name, "%s <= 0" % left_name] if left_name else [])
+        ev = [st for st in ip.body[k + 1:] if isinstance(st, ast.If) and norm(st.test) in zero_tests
               and any(isinstance(s, ast.Delete) and norm(s.targets[0]) == "cache[%s]" % sv for s in st.body)]
         other_del = [norm(n) for n in walk_no_nested(op) if isinstance(n, ast.Delete) and "cache" in norm(n) and not any(n in e.body for e in ev)]
         ok4 = not before and len(ev) == 1 and not other_del
@@ -500,9 +542,16 @@ def rule_align(ctx):
     okit = idx is not None and norm(ip.iter).replace(" ", "") in ("matches[%s][1]" % idx, "secondaries[%s]" % idx)
     ctx.ob("FileSet.align.secondaries_of", okit, "inner loop over %s" % norm(ip.iter), "the secondaries matched to primary i: matches[i][1]", node=ip, func=f)
     ys = [n for n in walk_no_nested(ip) if isinstance(n, ast.Yield)]
-    if len(ys) != 1 or not isinstance(ys[0].value, ast.Tuple) or len(ys[0].value.elts) != 2:
-        raise AnalysisError("align: expected one `yield primary, secondary` in the secondary loop")
-    y = ys[0]
+    if not ys or any(not isinstance(y_.value, ast.Tuple) or len(y_.value.elts) != 2 for y_ in ys):
+        raise AnalysisError("align: expected `yield primary, secondary` in the secondary loop")
+    # one yield, or one per value of return_info (each branch yields for itself)
+    y_for = {}
+    for v_ in (True, False):
+        live = [y_ for y_ in ys if flow.live_under(enclosing_stmt(y_), {"return_info": v_})]
+        if len(live) != 1:
+            raise AnalysisError("align: %d yields are reachable with return_info=%s" % (len(live), v_))
+        y_for[v_] = live[0]
+    y = y_for[True]
     sdat = None
     for st_ in walk_no_nested(ip):
         if isinstance(st_, ast.Assign) and norm(st_.value) == "cache[%s]" % sv and isinstance(st_.targets[0], ast.Name):
@@ -513,7 +562,7 @@ def rule_align(ctx):
     prim = norm(zp[0].targets[0].elts[0]) if zp and len(zp[0].targets[0].elts) == 2 else "primaries"
     vals = {}
     for v_ in (True, False):
-        vals[v_] = [norm(flow.resolve_under(e_, {"return_info": v_}, at=y, depth=2, stop=(pdat, sdat, sv, idx, prim))).replace(" ", "") for e_ in y.value.elts]
+        vals[v_] = [norm(flow.resolve_under(e_, {"return_info": v_}, at=y_for[v_], depth=2, stop=(pdat, sdat, sv, idx, prim, "matches"))).replace(" ", "") for e_ in y_for[v_].value.elts]
     oky = vals[False] == [pdat, sdat] and vals[True][0] in ("[%s[%s],%s]" % (prim, idx, pdat), "[matches[%s][0],%s]" % (idx, pdat)) and vals[True][1] == "[%s,%s]" % (sv, sdat)
     ctx.ob("FileSet.align.yield", oky, "plain: %s; with return_info: %s" % (vals[False], vals[True]),
            "(primary content, secondary content), each paired with its own FileInfo under return_info", node=y, func=f)
@@ -522,10 +571,24 @@ def rule_align(ctx):
     skips = [st_ for st_ in ip.body if isinstance(st_, ast.If) and any(isinstance(n_, ast.Continue) for n_ in st_.body) and stmt_before(f.node, st_, yst)
              and any(isinstance(n_, ast.Name) and n_.id in (pdat, sdat) for n_ in ast.walk(st_.test))]
     bad = None
+    # plain aliases of the two contents (`secondary_data = <content taken from the cache / loader>`)
+    al_s, al_p = {sdat}, {pdat}
+    for _ in range(3):
+        for a_ in walk_no_nested(ip):
+            if isinstance(a_, ast.Assign) and len(a_.targets) == 1 and isinstance(a_.targets[0], ast.Name) and isinstance(a_.value, ast.Name):
+                if a_.value.id in al_s:
+                    al_s.add(a_.targets[0].id)
+                if a_.value.id in al_p:
+                    al_p.add(a_.targets[0].id)
+    skips = [st_ for st_ in ip.body if isinstance(st_, ast.If) and any(isinstance(n_, ast.Continue) for n_ in st_.body) and stmt_before(f.node, st_, yst)
+             and any(isinstance(n_, ast.Name) and n_.id in (al_p | al_s) for n_ in ast.walk(st_.test))]
     for st_ in skips:
         for pv, sv_, sk in itertools.product((None, 1), (None, 1), (True, False)):
             try:
-                got = bool(Interp({pdat: pv, sdat: sv_, "skip_errors": sk}).ev(st_.test))
+                env_ = {"skip_errors": sk}
+                env_.update({n_: pv for n_ in al_p})
+                env_.update({n_: sv_ for n_ in al_s})
+                got = bool(Interp(env_).ev(st_.test))
             except AnalysisError as e_:
                 raise AnalysisError("align: skip guard outside the model: %s" % e_)
             must_keep = pv is not None and sv_ is not None
